@@ -20,7 +20,63 @@ ASSUMPTIONS = [
     'generator itself (2700 lines of randomised recursive descent) is outside the reach of the VC generator',
 ]
 NOT_UNDER_CONTRACT = ['src.generators.generator.Generator (all gen_* methods)', 'src.transformations.*',
-                      'src.translators.*', 'hephaestus.gen_program']
+                      'src.translators.*', 'hephaestus.gen_program (only its try/except shape: 4 syntactic obligations)']
+
+PIPELINE_CALLS = ('get_program', 'process_cp_transformations', 'process_ncp_transformations', 'save_program',
+                  'translate_program')
+
+
+def custom_proof(tier):
+    """the last line of defence named by the property's anchors (hephaestus.py gen_program): every pipeline stage runs
+    inside one try whose handler catches Exception, never re-raises and returns a failed ProgramRes on every path.
+    Syntactic obligations on the real AST (no SMT): they do not show that the stages terminate or do not fail, only that a
+    failure is reported as a failed program and not as a crash of the tool."""
+    import ast
+    repo = os.environ.get('HEPH_REPO', '/repo')
+    tree = ast.parse(open(os.path.join(repo, 'hephaestus.py')).read())
+    fn = next((n for n in tree.body if isinstance(n, ast.FunctionDef) and n.name == 'gen_program'), None)
+    out = []
+
+    def ob(name, ok, why=''):
+        out.append(dict(name='hephaestus.gen_program/' + name, function='hephaestus.gen_program',
+                        lineno=getattr(fn, 'lineno', 0), kind='proof', status='proved' if ok else 'failed', secs=0,
+                        backend='syntactic', reason='' if ok else why))
+    if fn is None:
+        ob('exists', False, 'hephaestus.gen_program not found')
+        return out
+    tries = [s for s in fn.body if isinstance(s, ast.Try)]
+    ob('single-try', len(tries) == 1 and fn.body[-1] is tries[0],
+       'the body of gen_program does not end with exactly one try statement')
+    if not tries:
+        return out
+    t = tries[0]
+    inside = {id(n) for s in t.body for n in ast.walk(s)}
+    stray = [n for n in ast.walk(fn) if isinstance(n, ast.Call) and (
+        (isinstance(n.func, ast.Attribute) and n.func.attr in PIPELINE_CALLS) or
+        (isinstance(n.func, ast.Name) and n.func.id in PIPELINE_CALLS)) and id(n) not in inside]
+    ob('stages-inside-try', not stray, 'pipeline stage called outside the try: ' +
+       ', '.join('line %d' % n.lineno for n in stray[:3]))
+    hs = t.handlers
+    catches = len(hs) >= 1 and any(h.type is None or (isinstance(h.type, ast.Name) and h.type.id in ('Exception', 'BaseException'))
+                                   for h in hs)
+    ob('handler-catches-exception', catches and not t.finalbody, 'no handler for Exception (or a finally block)')
+    bad = []
+    for h in hs:
+        for n in ast.walk(h):
+            if isinstance(n, ast.Raise):
+                bad.append('line %d: raise in the handler' % n.lineno)
+        last = h.body[-1] if h.body else None
+        ok_ret = isinstance(last, ast.Return) and isinstance(last.value, ast.Call) and isinstance(last.value.func, ast.Name) \
+            and last.value.func.id == 'ProgramRes' and last.value.args \
+            and isinstance(last.value.args[0], ast.Constant) and last.value.args[0].value is True
+        if not ok_ret:
+            bad.append('line %d: the handler does not end with `return ProgramRes(True, ...)`' % h.lineno)
+        for n in ast.walk(h):
+            if isinstance(n, ast.Return) and n is not last:
+                bad.append('line %d: early return in the handler' % n.lineno)
+    ob('handler-reports-failed-program', not bad, '; '.join(bad[:3]))
+    return out
+
 
 from props import C18_bounded as _b   # noqa: E402
 replay_search = _b.replay_search
@@ -79,9 +135,36 @@ def _get_types_check():
     return n, out
 
 
+def _word_pool_check():
+    """bounded: a long session generates many programs in one process; reset_word_pool() (called per program by
+    hephaestus.gen_program) must restore the whole identifier pool, however many words earlier programs consumed --
+    otherwise the pool runs dry after some dozens of programs and generation raises"""
+    for m in [k for k in sys.modules if k == 'src' or k.startswith('src.')]:
+        del sys.modules[m]
+    if REPO not in sys.path:
+        sys.path.insert(0, REPO)
+    from src import utils
+    rnd = utils.random
+    rnd.r.seed(7)
+    rnd.reset_word_pool()
+    full = len(rnd.WORDS)
+    out = []
+    for k in range(5):
+        for _ in range(200):
+            rnd.word()
+        rnd.reset_word_pool()
+        if len(rnd.WORDS) != full:
+            out.append(dict(check='bounded[word-pool:reset-restores-the-pool]', function='src.utils.RandomUtils.reset_word_pool',
+                            actual='%d words after reset #%d' % (len(rnd.WORDS), k + 1), expected='%d words' % full))
+            break
+    return 5, out
+
+
 def bounded(tier, seed, stop_first=False):
     r = _b.bounded(tier, seed, stop_first)
     n, extra = _get_types_check()
+    n3, extra3 = _word_pool_check()
+    n, extra = n + n3, extra + extra3
     r['evaluations'] = r.get('evaluations', 0) + n
     r.setdefault('violations', []).extend(extra)
     return r
@@ -89,6 +172,11 @@ def bounded(tier, seed, stop_first=False):
 
 def replay(payload):
     fi = payload.get('failing_input') or {}
+    if str(fi.get('check', '')).startswith('bounded[word-pool'):
+        n, out = _word_pool_check()
+        for v in out:
+            print('%s: %s (expected %s)' % (v['check'], v.get('actual'), v.get('expected')))
+        return not out
     if str(fi.get('check', '')).startswith('bounded[get-types'):
         n, out = _get_types_check()
         for v in out:
